@@ -16,6 +16,9 @@ fn run(req: &Sx) -> String {
         "from_attributes" => entry_from_attributes(&di),
         other => panic!("unknown derive {}", other),
     };
+    if l[0].atom() == "derive_text" {
+        return jstr(&ts.to_string());
+    }
     // classify the output: items that are impl blocks, compile_error! invocations with their messages
     let text = ts.to_string();
     let mut errors = vec![];
